@@ -365,7 +365,7 @@ def main():
     # single-particle variations (the varied particle is a test particle: only its own coordinates vary)
     us += [dict(what='force', gravity='BASIC', N=2, order=1, tp=1), dict(what='force', gravity='BASIC', N=3, order=1, tp=1, t_ms=60000, ext=True), dict(what='force', gravity='BASIC', N=2, order=2, tp=1, t_ms=30000, ext=True)]
     if tier == 'thorough': us.append(dict(what='force', gravity='BASIC', N=3, order=1, na=2, tpt=0, t_ms=120000, ext=True))
-    if tier == 'thorough': us += [dict(what='force', gravity='BASIC', N=3, order=1, tp=2, t_ms=120000, ext=True), dict(what='force', gravity='COMPENSATED', N=2, order=1, tp=0)]          # N=3 second order single-particle: all three obligations time out (tried, 120 s each)
+    if tier == 'thorough': us += [dict(what='force', gravity='COMPENSATED', N=2, order=1, tp=0)]          # N=3 second order single-particle: all three obligations time out (tried, 120 s each)
     for nm in (['e', 'inc', 'Omega', 'omega', 'f', 'e_e', 'a_e', 'e_f', 'm_e', 'm_f', 'inc_Omega', 'omega_f'] if tier == 'quick' else CLASSICAL): us.append(dict(what='constructor', name=nm, t_ms=15000 if tier == 'quick' else 90000, t_ext=20 if tier == 'quick' else 120))
     if tier == 'thorough': us += [dict(what='force', gravity='BASIC', N=3, order=1, t_ms=60000, ext=True), dict(what='force', gravity='BASIC', N=3, order=2, t_ms=120000, ext=True)]
     rep = run_units(us, worker)
